@@ -155,6 +155,20 @@ func (g *G) expr() E {
 		}
 		op := []string{"-", "+", "~"}[g.pick("expr.sign", 3)]
 		g.tag("op:u" + op)
+		// signs directly on numeric literals (folded into the literal by the parser) and sign chains
+		num := func() E {
+			if g.flip("expr.sign.float") {
+				return E{Frag: g.floatLit()}
+			}
+			return E{Frag: g.intLit(), endsNum: true}
+		}
+		switch g.choose("expr.sign.operand", "expr", "expr", "number", "signed-number") {
+		case "number":
+			return E{Frag: cat(p(op), num().Frag), Level: lvUnary}
+		case "signed-number":
+			op2 := []string{"-", "+"}[g.pick("expr.sign2", 2)]
+			return E{Frag: cat(p(op), p(op2), num().Frag), Level: lvUnary}
+		}
 		return E{Frag: cat(p(op), g.fit(g.expr(), lvUnary)), Level: lvUnary}
 	case c < 14: // IS
 		form := []string{"IS NULL", "IS NOT NULL", "IS TRUE", "IS NOT TRUE", "IS FALSE", "IS NOT FALSE"}[g.pick("expr.is", 6)]
